@@ -148,6 +148,29 @@ func (fr *Frame) stdlibCall(in *ssa.Call, callee *ssa.Function, args []*GVal) *G
 	if g := fr.stdlibCall2(in, callee, name, args); g != nil {
 		return g
 	}
+	// unknown library function: whatever it is handed a pointer to may be written
+	for i, a := range args {
+		if a.Ptr == nil || a.T != nil {
+			continue
+		}
+		pp := a.Ptr
+		if pp.Cell != nil && pp.Cell.pub != nil {
+			pp = &Ptr{Ref: pp.Cell.pub, RefTy: pp.Cell.pubTy, Path: pp.Path}
+		}
+		switch {
+		case pp.Ref != nil && len(pp.Path) > 0 && pp.Path[0].Field != "":
+			key := pp.RefTy + "." + pp.Path[0].Field
+			fs := ex.heapFieldSort(pp.RefTy, pp.Path[0].Field)
+			h := ex.heapGet(ex.st, key, fs)
+			ex.st.heap[key] = Store(h, pp.Ref, ex.p.FreshConst("written_by_"+callee.Name(), fs))
+			fr.frameWrite(key, pp, in.Pos())
+		case pp.Global != nil:
+			fr.oblige("frame", "global-write("+pp.Global.Name()+")", []string{"C12", "C13"}, TFalse, in.Pos())
+		case pp.Cell != nil:
+			ex.st.cells[pp.Cell] = ex.p.FreshConst("written_by_"+callee.Name(), pp.Cell.sort)
+		}
+		_ = i
+	}
 	ex.unsupp("call to %s has no assumed contract", name)
 	return fr.havocResult(in.Type(), callee.Name())
 }
